@@ -35,7 +35,7 @@ func init() {
 		Assumptions: []string{"power loss is simulated from the recorded system-call trace under the stated model; real power loss cannot be produced in the sandbox", "tearing inside one write call is modelled by the listed prefixes, not produced", "strace's when= counts calls of one name by the traced (main) thread; every injected run is validated against its own trace"},
 		Batches:     func(tier string) int { return 16 },
 		Require: func(tier string) map[string]int64 {
-			return map[string]int64{"kill_points": 40, "kill_points_validated": 40, "crash_states": 120, "crash_points": 40, "states_after_ack_checked": 12, "syscall_faults": 30, "store_fault_subsets": 90, "reopen_after_crash": 100}
+			return map[string]int64{"kill_points": 40, "kill_points_validated": 40, "crash_states": 120, "crash_points": 40, "states_after_ack_checked": 12, "syscall_faults": 30, "store_fault_subsets": 90, "failed_commits_over_the_log_limit": 12, "reopen_after_crash": 100}
 		},
 		WorkerTimeoutSec: func(tier string) int { return 2400 },
 		Run:              runC05,
@@ -249,6 +249,7 @@ func runC05(c *fw.Ctx) {
 	c05PowerLoss(c, rec, recDir, images, expected)
 	c05SyscallFaults(c, profile, expected, window)
 	c05StoreFaults(c)
+	c05StoreFaultsTrimming(c)
 }
 
 // (1) kill sweep ------------------------------------------------------------
@@ -673,6 +674,110 @@ func (s *countingStore) Store(c *lungo.Catalog) error {
 		return errors.New("injected store failure")
 	}
 	return s.inner.Store(c)
+}
+
+// c05StoreFaultsTrimming: the commit whose store call fails is one whose
+// clean-up trims the change log (pre-loaded log over its limits), and it is a
+// commit of every kind - also the kinds that write no change event themselves
+// (collection and index creation, index drops), alone or inside a session
+// transaction. The state visible to clients, change log included, must stay
+// the last persisted one, and the next commit must succeed.
+func c05StoreFaultsTrimming(c *fw.Ctx) {
+	kinds := []string{"insert", "createCollection", "createIndex", "dropIndex", "update", "session:createIndex+insert", "session:createCollection", "session:insert"}
+	n := 0
+	for L := 3; L <= 8; L++ {
+		for ki, kind := range kinds {
+			n++
+			if n%c.NBatches != c.Batch {
+				continue
+			}
+			idx := 410000 + L*10 + ki
+			if c.Skip(idx) {
+				continue
+			}
+			desc := map[string]interface{}{"old_events": L, "failing_commit": kind, "minSize": 1, "maxSize": 2}
+			c.Case(idx, func() interface{} { return desc }, nil, func() {
+				c.Eval(1)
+				ages := make([]time.Duration, L)
+				for i := range ages {
+					ages[i] = ageOld
+				}
+				store := &failStore{cat: craftedOplog(ages)}
+				client, engine, err := lungo.Open(nil, lungo.Options{Store: store, ExpireInterval: 1 << 40, MinOplogSize: 1, MaxOplogSize: 2, MinOplogAge: 5 * time.Minute, MaxOplogAge: time.Hour})
+				if err != nil {
+					c.Inconclusive("open: " + err.Error())
+					return
+				}
+				defer engine.Close()
+				ctx := context.Background()
+				coll := client.Database("d").Collection("c")
+				if kind == "dropIndex" || kind == "update" {
+					// (set up by commits that succeed; they trim the log already, so
+					// the log is refilled through the store afterwards)
+					coll.InsertOne(ctx, bson.D{{Key: "_id", Value: int32(1)}, {Key: "a", Value: int32(1)}})
+					coll.Indexes().CreateOne(ctx, mongoIndexModel(bson.D{{Key: "a", Value: int32(1)}}, nil))
+				}
+				before := exactDump(engine.Catalog())
+				beforeEvents := len(oplogEvents(engine.Catalog()))
+				store.failNext()
+				var werr error
+				switch kind {
+				case "insert":
+					_, werr = coll.InsertOne(ctx, bson.D{{Key: "_id", Value: int32(99)}})
+				case "createCollection":
+					werr = client.Database("d").CreateCollection(ctx, "made")
+				case "createIndex":
+					_, werr = coll.Indexes().CreateOne(ctx, mongoIndexModel(bson.D{{Key: "z", Value: int32(1)}}, nil))
+				case "dropIndex":
+					_, werr = coll.Indexes().DropOne(ctx, "a_1")
+				case "update":
+					_, werr = coll.UpdateOne(ctx, bson.D{{Key: "_id", Value: int32(1)}}, bson.D{{Key: "$inc", Value: bson.D{{Key: "a", Value: int32(1)}}}})
+				default:
+					sess, _ := client.StartSession()
+					_, werr = sess.WithTransaction(ctx, func(sc lungo.ISessionContext) (interface{}, error) {
+						if kind == "session:createCollection" {
+							return nil, client.Database("d").CreateCollection(sc, "made")
+						}
+						if kind == "session:insert" {
+							_, e := coll.InsertOne(sc, bson.D{{Key: "_id", Value: int32(97)}})
+							return nil, e
+						}
+						if _, e := coll.Indexes().CreateOne(sc, mongoIndexModel(bson.D{{Key: "z", Value: int32(1)}}, nil)); e != nil {
+							return nil, e
+						}
+						_, e := coll.InsertOne(sc, bson.D{{Key: "_id", Value: int32(98)}})
+						return nil, e
+					})
+					sess.EndSession(ctx)
+				}
+				store.mu.Lock()
+				consumed := !store.fail
+				store.fail = false
+				store.mu.Unlock()
+				if !consumed {
+					// the call never reached the store (it failed earlier or had
+					// nothing to commit): not a store failure
+					c.Count("trimming_calls_without_store_call", 1)
+					return
+				}
+				c.Count("failed_trimming_commits", 1)
+				if beforeEvents > 2 {
+					c.Count("failed_commits_over_the_log_limit", 1)
+				}
+				if werr == nil {
+					c.Violate("storefault:error-swallowed", "the store failed but the call reported success", desc)
+					return
+				}
+				if d := before.Diff(exactDump(engine.Catalog())); d != "" {
+					c.Violate("storefault:visible-state-changed", "the store call of a "+kind+" commit failed but the state visible to clients changed: "+d, desc)
+					return
+				}
+				if _, err := coll.InsertOne(ctx, bson.D{{Key: "_id", Value: int32(100)}}); err != nil {
+					c.Violate("storefault:stuck", "after a failed commit the next write fails: "+err.Error(), desc)
+				}
+			})
+		}
+	}
 }
 
 func c05StoreFaults(c *fw.Ctx) {
